@@ -22,10 +22,11 @@ TECHNIQUE = "parser tree-shape probe + differential VM value on grouping-separat
 LEVEL_TEXT = ("Complete enumeration of all 169 ordered pairs and 2197 ordered triples of the 13 binary operators, each without "
               "parentheses and under every parenthesisation, in five syntactic contexts for pairs, each under random layouts: "
               "the real parser's tree is compared with the generator's tree, and the compiled program's VM value with the "
-              "reference interpreter on operands that separate all alternative groupings.")
+              "reference interpreter on operands that separate all alternative groupings. For pairs also: literal operands at both optimisation settings, operand triples "
+              "of mixed int/float type, and texts with a sign glued to a literal.")
 LEVEL_NOTE = ("Trusted: the generator tree (lang.natural = the declared precedence table written out independently), the reference "
-              "interpreter, the token printer. `a -1` (sign glued to a literal by the lexer) is a different token sequence and is "
-              "not used; operands are variables.")
+              "interpreter, the token printer. `a -1` (sign glued to a literal by the lexer) is a syntax error today; such texts are offered and "
+              "judged only if accepted: they must then mean what the spaced text `a - 1` means (whitespace must not change a grouping).")
 RULE = ("cases = (operator sequence, parenthesisation, context, operand kind); all 169 pairs x 2 shapes and 2197 triples x 5 shapes "
         "are enumerated in both tiers (exhaustive), each under N random layouts (3 quick / 10 thorough).  A case is non-trivial "
         "when operand vectors were found under which every alternative grouping evaluates to a different value (or leaves the "
